@@ -173,52 +173,11 @@ def run_suite(name, tier, seed):
 def inductive(tier):
     """Design-level, unbounded: Alloc_Ind.tla's invariant is inductive (Apalache; arbitrary
     integers as generations, histories of any length, N indices) and implies C01 / C17 for
-    the allocator design; TLC re-checks the same invariant on a bounded instance.  This says
-    nothing about the code by itself (the traces do that) and is reported as a suite of its
-    own; if the solver does not finish in time that is recorded, not an error."""
+    the allocator design; TLC re-checks the same invariant on a bounded instance."""
     n = 4 if tier == "quick" else 8
-    key = C.suite_key("alloc-ind", {"N": n}, 0, tier)
-    hit = C.cache_get(key)
-    if hit is not None:
-        hit["cache_hit"] = True
-        return hit
-    import shutil
-    import time as _t
-    d = os.path.join(C.OUT, "cfg", "p%d" % os.getpid(), "ind")
-    os.makedirs(d, exist_ok=True)
-    shutil.copy(os.path.join(C.SPEC, "Alloc_Ind.tla"), d)
-    open(os.path.join(d, "MC_Ind.tla"), "w").write(
-        "---- MODULE MC_Ind ----\nEXTENDS Alloc_Ind\nConstInit == N = %d\nBound == \\A i \\in Idx : gen[i] \\in -3..3\n====\n" % n)
-    open(os.path.join(d, "MC_Ind.cfg"), "w").write(
-        "SPECIFICATION Spec\nCONSTANT N = 3\nINVARIANT Inv\nINVARIANT Safe\nCONSTRAINT Bound\nCHECK_DEADLOCK FALSE\n")
-    t0 = _t.time()
-    steps = []
-    res = {"suite": "alloc_inductive", "kind": "inductive invariant (Apalache) + bounded TLC", "params": {"N": n},
-           "cache_hit": False, "n_scripts": 0, "n_events": 0, "viol": [], "samples": []}
-    try:
-        md = os.path.join(C.OUT, "md", "ind%d" % os.getpid())
-        p = C.sh(["timeout", "300", "tlc", "-workers", "4", "-metadir", md, "-cleanup", "-noGenerateSpecTE",
-                  "-config", "MC_Ind.cfg", "MC_Ind.tla"], cwd=d, timeout=330)
-        C.sh(["rm", "-rf", md])
-        ok = "Model checking completed. No error has been found." in p.stdout
-        st = C.tlc_stats(p.stdout) or {}
-        steps.append({"step": "TLC: Inv and Safe on the bounded instance (3 indices, |generation| <= 3)", "ok": ok, **st})
-        if ok:
-            res["mc"] = st
-        for name, args in (("Init => IndInv", ["--init=Init", "--inv=IndInv", "--length=0"]),
-                           ("IndInv /\\ Next => IndInv'", ["--init=IndInit", "--inv=IndInv", "--length=1"]),
-                           ("IndInv => Safe", ["--init=IndInit", "--inv=Safe", "--length=0"])):
-            p = C.sh(["timeout", "900", "apalache-mc", "check", "--cinit=ConstInit", "--out-dir=" + os.path.join(d, "_apalache-out")]
-                     + args + ["MC_Ind.tla"], cwd=d, timeout=930)
-            steps.append({"step": "Apalache: " + name, "ok": "EXITCODE: OK" in p.stdout,
-                          "outcome": next((l.strip()[:80] for l in p.stdout.splitlines() if "The outcome is" in l), "no outcome (timeout / tool failure)")})
-    except C.ToolError as e:
-        steps.append({"step": "not completed", "ok": False, "outcome": str(e)[:200]})
-    res["wall_s"] = round(_t.time() - t0, 1)
-    res["extra"] = {"steps": steps, "all_ok": all(x["ok"] for x in steps)}
-    shutil.rmtree(d, ignore_errors=True)
-    C.cache_put(key, res)
-    return res
+    return C.inductive_suite("alloc_inductive", "Alloc_Ind", tier, {"N": n}, "N = %d" % n,
+                             "CONSTANT N = 3\nCONSTRAINT Bound", extra_defs="Bound == \\A i \\in Idx : gen[i] \\in -3..3",
+                             tlc_note="3 indices, |generation| <= 3", safe="Safe")
 
 
 def check(prop, tier, seed):
